@@ -39,10 +39,13 @@ type c02Case struct {
 	CutAt int
 	// Tight: maxHttpBufferSize is exactly the largest single request body / frame of the case
 	Tight bool
+	// NetCut: websocket / webtransport: every frame reaches the server in two pieces, the first of this many
+	// bytes (0 = in one piece): the boundary may fall inside the frame header
+	NetCut int
 }
 
 func (c c02Case) String() string {
-	return fmt.Sprintf("{%s rev%d b64=%v v3binary=%v pkts=%s split=%v frags=%v wtform=%d tail=%s tight=%v}", c.Carrier, c.Rev, c.B64, c.V3Binary, pktsString(c.Pkts), c.Split, c.Frags, c.WTForm, c.Tail, c.Tight)
+	return fmt.Sprintf("{%s rev%d b64=%v v3binary=%v pkts=%s split=%v frags=%v wtform=%d tail=%s tight=%v netcut=%d}", c.Carrier, c.Rev, c.B64, c.V3Binary, pktsString(c.Pkts), c.Split, c.Frags, c.WTForm, c.Tail, c.Tight, c.NetCut)
 }
 
 var c02Texts = []string{"", "a", "hello", "4", "0", "2probe", "5:4abc", "1:2", "12:", "b4aGVsbG8=", "bQUJD", "ünï", "😀", "a😀b€c", "日本語テキスト", "with\nnewline", "back\\slash", "\\n", "\\\\n", "quote\"'", "a:b:c", "%41+%2B&d=x", "\t\r", "{\"k\":[1,2]}", "  ", "</script>"}
@@ -144,6 +147,9 @@ func genC02(rt *rapid.T, knownScanner bool, col *Collector) c02Case {
 	}
 	if c.Carrier == "webtransport" {
 		c.WTForm = rapid.IntRange(0, 2).Draw(rt, "wtform")
+	}
+	if c.Carrier == "webtransport" || c.Carrier == "websocket" {
+		c.NetCut = rapid.SampledFrom([]int{0, 0, 0, 1, 2, 3, 4, 5, 7, 8, 9, 10, 13}).Draw(rt, "netcut")
 	}
 	c.Tight = rapid.IntRange(0, 2).Draw(rt, "tightLimit") == 0
 	c.Tail = rapid.SampledFrom([]string{"none", "none", "afterClose", "candidate", "cutUpload", "cutUpload"}).Draw(rt, "tail")
@@ -273,6 +279,20 @@ func runC02(c c02Case) (fail string, stats map[string]bool) {
 				frags = c.Frags
 				stats["fragmented-frames"] = true
 			}
+			if c.NetCut > 0 && len(frags) == 0 {
+				fr := encPacketFrame(c.Rev, c.B64, p)
+				op := byte(opText)
+				if fr.Binary {
+					op = opBinary
+				}
+				raw := buildWSFrame(op, true, false, fr.Data, true, s.wc.MaskKey, 0)
+				if c.NetCut < len(raw) {
+					s.wc.SendRaw(raw[:c.NetCut])
+					Settle()
+					s.wc.SendRaw(raw[c.NetCut:])
+					continue
+				}
+			}
 			s.wc.SendPacket(p, frags)
 		}
 		Settle()
@@ -283,7 +303,11 @@ func runC02(c c02Case) (fail string, stats map[string]bool) {
 			if form == 1 && len(fr.Data) > 65535 {
 				form = 2
 			}
-			s.tc.SendFrameRaw(wtEncodeForm(fr.Binary, fr.Data, form))
+			raw := wtEncodeForm(fr.Binary, fr.Data, form)
+			if c.NetCut > 0 && c.NetCut < len(raw)-len(fr.Data) {
+				stats["frame-header-split-in-transit"] = true
+			}
+			s.tc.SendFrameRawCut(raw, c.NetCut)
 		}
 		if c.WTForm > 0 {
 			stats["non-minimal-length-form"] = true
@@ -508,7 +532,7 @@ func TestC02Inbound(t *testing.T) {
 		}
 	})
 	req := []string{"carrier.polling.rev4", "carrier.polling.rev3", "carrier.jsonp.rev4", "carrier.jsonp.rev3", "carrier.websocket.rev4", "carrier.websocket.rev3", "carrier.webtransport.rev4", "v3-binary-payload", "multi-packet-payload", "non-ascii-text", "binary", "empty-data", "close-not-last", "post-after-close", "candidate-traffic", "traffic-after-close", "fragmented-frames", "non-minimal-length-form", ">=64KiB", "tight-limit"}
-	req = append(req, "connection-died-inside-a-payload")
+	req = append(req, "connection-died-inside-a-payload", "frame-header-split-in-transit")
 	col.RequireClasses(t, req...)
 }
 
